@@ -180,7 +180,70 @@ def build_message(case: Dict[str, Any]):
     return wire, JSONRPCNotification(**wire)
 
 
+def check_life(case: Dict[str, Any]) -> Outcome:
+    """a long-lived connection: initialize, then hundreds of messages bearing the session id with gaps of hours in
+    between (controlled clock).  Every request gets exactly one response with its id and dispatch never raises -
+    however old the session has become in the meantime."""
+    import chuk_mcp.server.session.memory as memmod
+
+    from ..vclock import run_virtual
+
+    out = Outcome(nontrivial=True, classes=("long-life",))
+
+    class Clock:
+        now = 1_000_000.0
+
+        def time(self):
+            return self.now
+
+    clock = Clock()
+    real = memmod.time
+    memmod.time = clock  # type: ignore
+    try:
+        srv = build_server({"tools": ["str", "raise_runtime"], "resources": ["str"], "custom": []})
+        ph = srv.protocol_handler
+        from chuk_mcp.protocol.messages.json_rpc_message import parse_message
+
+        async def go():
+            resp, sid = await ph.handle_message(parse_message({"jsonrpc": "2.0", "id": "i", "method": "initialize", "params": {"protocolVersion": "2025-06-18", "capabilities": {}, "clientInfo": {"name": "c", "version": "1"}}}))
+            sids = [sid]
+            for k in range(case["n"]):
+                if k % case["gap_every"] == 0:
+                    clock.now += case["gaps"][(k // case["gap_every"]) % len(case["gaps"])]
+                if k % 50 == 49:
+                    r2, s2 = await ph.handle_message(parse_message({"jsonrpc": "2.0", "id": f"i{k}", "method": "initialize", "params": {"protocolVersion": "2025-03-26", "capabilities": {}, "clientInfo": {"name": "c2", "version": "1"}}}))
+                    sids.append(s2)
+                use = sids[k % len(sids)]
+                kind = k % 4
+                if kind == 3:
+                    wire = {"jsonrpc": "2.0", "method": "notifications/cancelled", "params": {"requestId": "x"}}
+                else:
+                    wire = {"jsonrpc": "2.0", "id": k, "method": ["ping", "tools/list", "tools/call"][kind], "params": {"name": "tool0", "arguments": {}} if kind == 2 else {}}
+                try:
+                    resp, _sid = await ph.handle_message(parse_message(wire), use)
+                except Exception as e:  # noqa
+                    out.fail("dispatch-raised-on-request" if "id" in wire else "dispatch-raised-on-notification", f"message {k} ({wire.get('method')}) with the id of a session idle for up to {max(case['gaps'])}s: {type(e).__name__}: {e}")
+                    return
+                if "id" in wire:
+                    w = json.loads(resp.model_dump_json(exclude_none=True)) if resp is not None else None
+                    if w is None or not strict_eq(w.get("id"), k) or classify(w)[0] not in ("result", "error"):
+                        out.fail("request-not-answered", f"message {k}: {w!r}")
+                        return
+                elif resp is not None:
+                    out.fail("notification-answered", f"message {k}: {resp!r}")
+                    return
+
+        run_virtual(go)
+    except Exception as e:  # noqa
+        out.fail("long-life-harness-raised", f"{type(e).__name__}: {e}")
+    finally:
+        memmod.time = real  # type: ignore
+    return out
+
+
 def check(case: Dict[str, Any]) -> Outcome:
+    if "gaps" in case:
+        return check_life(case)
     out = Outcome()
     prog = case.get("server", {})
     try:
@@ -442,13 +505,20 @@ def job_handlers(col: Collector, seed: int, tier: str) -> None:
     col.exhaustive_parts.append(f"{len(HANDLER_KINDS)} tool handler behaviours x 5 argument shapes x 4 ids x 3 constructions; 4 resource handler behaviours x 4 ids x 3 constructions")
 
 
-JOBS = {"hyp": job_hyp, "notifs": job_notifs, "handlers": job_handlers}
+def job_life(col: Collector, seed: int, tier: str) -> None:
+    for n, gap_every, gaps in ((200, 1, [3601]), (300, 7, [7200, 10, 86400]), (260, 63, [3700]), (260, 64, [3700]), (260, 65, [3700]), (400, 16, [3599, 3601]), (150, 3, [0, 1, 4000])):
+        case = {"n": n, "gap_every": gap_every, "gaps": gaps}
+        col.record(case, check(case))
+    col.exhaustive_parts.append("7 long-lived connections: 150..400 session-bound messages with clock gaps of up to a day at various periods")
+
+
+JOBS = {"hyp": job_hyp, "notifs": job_notifs, "handlers": job_handlers, "life": job_life}
 
 
 def jobs(tier: str):
     if tier == "quick":
-        return [("hyp", {"shard": s, "n": 400}) for s in range(13)] + [("notifs", {}), ("handlers", {})]
-    return [("hyp", {"shard": s, "n": 7000}) for s in range(14)] + [("notifs", {}), ("handlers", {})]
+        return [("hyp", {"shard": s, "n": 400}) for s in range(13)] + [("notifs", {}), ("handlers", {}), ("life", {})]
+    return [("hyp", {"shard": s, "n": 7000}) for s in range(14)] + [("notifs", {}), ("handlers", {}), ("life", {})]
 
 
 def shrink(signature: str, seed: int):
